@@ -38,9 +38,11 @@ Proof.
     destruct hn as [l|].
     + destruct (subset_b l (strs (f_cols fr))); cbn [negb orb exec]; [|reflexivity].
       destruct (nodup_c (f_cols fr)); cbn [negb orb exec]; [|reflexivity].
+      destruct (forallb is_str (f_cols fr)); cbn [negb orb exec]; [|reflexivity].
       destruct (forallb (fun b => b) (f_typed fr)); cbn [negb exec]; [discriminate | reflexivity].
     + cbn [orb exec].
       destruct (nodup_c (f_cols fr)); cbn [negb orb exec]; [|reflexivity].
+      destruct (forallb is_str (f_cols fr)); cbn [negb orb exec]; [|reflexivity].
       destruct (forallb (fun b => b) (f_typed fr)); cbn [negb exec]; [discriminate | reflexivity].
   - destruct (subset_b cols (d_cols d ++ d_cats d)); cbn [negb orb exec]; [|reflexivity].
     destruct (subset_b fcols (d_cols d ++ d_cats d)); cbn [negb exec]; [discriminate | reflexivity].
@@ -79,9 +81,11 @@ Proof.
     destruct hn as [l|].
     + destruct (subset_b l (strs (f_cols fr))); cbn [negb orb exec]; [|discriminate].
       destruct (nodup_c (f_cols fr)); cbn [negb orb exec]; [|discriminate].
+      destruct (forallb is_str (f_cols fr)); cbn [negb orb exec]; [|discriminate].
       destruct (forallb (fun b => b) (f_typed fr)); cbn [negb]; [|discriminate]. intros _. apply exec_eff_last.
     + cbn [orb exec].
       destruct (nodup_c (f_cols fr)); cbn [negb orb exec]; [|discriminate].
+      destruct (forallb is_str (f_cols fr)); cbn [negb orb exec]; [|discriminate].
       destruct (forallb (fun b => b) (f_typed fr)); cbn [negb]; [|discriminate]. intros _. apply exec_eff_last.
   - destruct (subset_b cols (d_cols d ++ d_cats d)); cbn [negb orb exec]; [|discriminate].
     destruct (subset_b fcols (d_cols d ++ d_cats d)); cbn [negb exec]; [reflexivity | discriminate].
